@@ -87,6 +87,11 @@ def generate(rng, tier, rep):
                 dt[where] = {'moddoc': rng.choice([None, True, True, False]), 'funcs': [rng.random() < 0.6 for _ in range(rng.randint(0, 3))]}
             c['doctests'] = dt
             rep.count('with doctests')
+        if rng.random() < 0.2:
+            # a test that changes the working directory and stays there: --xml names a relative directory, the reports
+            # belong where that name pointed when the run was started
+            rng.choice(tests)['meddle'] = ['chdir_sub']
+            rep.count('with a test that changes the working directory')
         cases.append(c)
     # layers run in subprocesses (-j N, or resumed after a layer that cannot be torn down): every process writes its
     # own report files into the same folder; nothing written by one process may be lost or overwritten by another
@@ -105,6 +110,9 @@ def generate(rng, tier, rep):
                 elif r < 0.4:
                     T['subs'] = [['fail', rand_msg(rng)], 'ok']
                 tests.append(T)
+        if k % 3 == 1:
+            rng.choice(tests)['meddle'] = ['chdir_sub']
+            rep.count('with a test that changes the working directory')
         # (at every verbosity: what a process says about its reports must not keep it from writing them)
         cases.append({'layers': layers, 'tests': tests,
                       'options': ['--xml', 'xmlout'] + ([] if resumed else [rng.choice(['-j2', '-j3'])]) + [[], ['-v'], ['-vv']][k % 3]})
